@@ -17,10 +17,13 @@ for pid in sorted(P.PROPS):
         'thorough_cmd': './check %s --tier thorough' % pid,
         'evidence_file': '/verif/evidence/%s.json' % pid,
         'replay_cmd_template': './check %s --replay {path}' % pid,
-        'engine': info.get('engine', 'verus' + ('+kani' if info.get('kani') else '')),
+        'engine': info.get('engine', 'verus' + ('+kani' if info.get('kani') else '') + ('+native-bounded' if info.get('native') else '')),
         'level_claimed': {'category': info['level'], 'text': info['explanation'], 'design_ref': 'DESIGN.md §5 ' + pid},
         'level_note': info.get('level_note', '; '.join(info.get('assumptions', [])) or 'see evidence.coverage.trusted_base'),
-        'technique': info.get('technique', 'contract-based deductive verification (Verus/Z3 on mechanically extracted functions)'),
+        'technique': info.get('technique', 'contract-based deductive verification (Verus/Z3 on functions mechanically extracted from the working tree'
+                              + ('; Kani/CBMC harnesses on the real crate: complete ones decide, bounded ones only add counterexamples' if info.get('kani') else '')
+                              + ('; bounded native enumeration of the real functions / sessions / binary stands in where no contract reaches (str code, whole sessions, process I/O): labelled bounded, never counted as proved' if info.get('native') else '')
+                              + ')'),
     })
 na = [{'property_id': k, 'reason': v} for k, v in sorted(P.NOT_APPLICABLE.items()) if k not in P.PROPS]
 m = {
@@ -29,8 +32,8 @@ m = {
     'hooks': {
         'guard': 'rozukke_lace_verif',
         'enable': 'no hooks are committed to /repo: contracts live in /verif/verus/units and are spliced onto functions '
-                  'extracted from the working tree on every run; Kani harness modules are injected into a scratch copy '
-                  'built with --cfg kani',
+                  'extracted from the working tree on every run; Kani harness modules (--cfg kani) and engine-N test modules '
+                  '(--cfg rozukke_lace_verif) are injected into scratch copies of the working tree only',
         'baseline_off_cmd': 'cd /repo && cargo test --workspace --no-fail-fast --offline',
         'source_commits': [],
         'add_only': True,
@@ -40,6 +43,10 @@ m = {
          'kind_free_text': 'Verus 0.2026.09.13 (Z3) on functions mechanically extracted from /repo/src each run'},
         {'name': 'kani', 'path': 'tools/kx_run.py kani/', 'serves_properties': sorted(p for p in P.PROPS if P.PROPS[p].get('kani')),
          'kind_free_text': 'Kani 0.68 / CBMC 6.11 harness modules injected into a scratch copy of the real crate'},
+        {'name': 'native-bounded', 'path': 'tools/nx_run.py native/', 'serves_properties': sorted(p for p in P.PROPS if P.PROPS[p].get('native')),
+         'kind_free_text': 'engine N: exhaustive enumeration up to a stated bound of the real functions / debugger sessions / built binary against '
+                           'references written from the property (test modules injected into a scratch copy under --cfg rozukke_lace_verif, overflow checks on); '
+                           'a bounded stand-in, never counted as proof'},
     ],
     'checks': checks,
     'not_applicable': na,
